@@ -149,6 +149,7 @@ type btScenario struct {
 	OldLast    bool           `json:"older_history_appended_after_recent"` // stored order is not chronological
 	FromRepo   bool           `json:"names_taken_from_repository"`         // Names left empty: Backtest asks the repository
 	Workers    int            `json:"workers"`
+	Unwritable string         `json:"strategy_whose_report_file_cannot_be_written,omitempty"` // its name contains a path separator
 }
 
 type btWorld struct {
@@ -214,6 +215,16 @@ func buildWorld(cc *run.Case, pool []namedStrat, nAssets, nStrats int, repoKind 
 		seen[nm] = true
 		w.mkStrat = append(w.mkStrat, ns.New)
 		sc.Strategies = append(sc.Strategies, nm)
+	}
+	if r.Intn(3) == 0 {
+		// a user-named group whose name contains a path separator: its individual
+		// report file cannot be written (no such directory). Wherever the pair is
+		// presented all the same, it must carry the right figures.
+		sc.Unwritable = "benchmarks/buy and hold"
+		w.mkStrat = append(w.mkStrat, func() strategy.Strategy {
+			return strategy.NewOrStrategy("benchmarks/buy and hold", strategy.NewBuyAndHoldStrategy())
+		})
+		sc.Strategies = append(sc.Strategies, sc.Unwritable)
 	}
 	w.sc = sc
 	return w
@@ -402,7 +413,18 @@ func c13Run(cc *run.Case, w *btWorld, workers int, raceOnly bool) (string, bool)
 				return fail(fmt.Sprintf("HTMLReport wrote no report for asset %s: %v", a, err))
 			}
 			rows := assetRowRe.FindAllStringSubmatch(string(b), -1)
-			if len(rows) != len(sc.Strategies) {
+			// the pair whose strategy report could not be written may be missing
+			// from the page (the failure is logged); every other pair must be there
+			skipped := ""
+			if html.WriteStrategyReports && sc.Unwritable != "" && len(rows) == len(sc.Strategies)-1 {
+				skipped = sc.Unwritable
+				for _, row := range rows {
+					if row[1] == skipped {
+						skipped = ""
+					}
+				}
+			}
+			if len(rows) != len(sc.Strategies) && skipped == "" {
 				return fail(fmt.Sprintf("%s.html has %d result rows, %d strategies", a, len(rows), len(sc.Strategies)))
 			}
 			seen := map[string]bool{}
@@ -411,7 +433,9 @@ func c13Run(cc *run.Case, w *btWorld, workers int, raceOnly bool) (string, bool)
 			exp := make([]float64, len(sc.Strategies))
 			for si := range sc.Strategies {
 				exp[si] = lastOr(w.direct(a, si).Outcomes, 0) * 100
-				maxOut = math.Max(maxOut, exp[si])
+				if sc.Strategies[si] != skipped {
+					maxOut = math.Max(maxOut, exp[si])
+				}
 			}
 			for ri, row := range rows {
 				sn := row[1]
